@@ -11,6 +11,7 @@ import (
 	"github.com/hashicorp/nodeenrollment/registration"
 	"github.com/hashicorp/nodeenrollment/rotation"
 	"github.com/hashicorp/nodeenrollment/types"
+	"github.com/mr-tron/base58"
 	"google.golang.org/protobuf/proto"
 	"google.golang.org/protobuf/types/known/timestamppb"
 
@@ -46,6 +47,7 @@ func propC03(r *kernel.Run) {
 		libMade := tp.Draw(3) == 0
 		fieldsOK := true
 		fieldCase := "complete"
+		tokenReq := false
 		if libMade {
 			// a request a node creates through the library, under the simulated clock
 			created := time.Now()
@@ -125,6 +127,17 @@ func propC03(r *kernel.Run) {
 				r.Count("cfg.window_in_far_years", 1)
 			}
 			sp := ReqSpec{Cert: id, EncPub: id.EncPub, Nonce: id.Nonce, NotBefore: nb, NotAfter: na}
+			if tp.Draw(6) == 0 {
+				// the request presents a live activation token: an invalid request must not get as far as looking the
+				// token up, let alone consuming it
+				_, tok, terr := registration.CreateServerLedActivationToken(w.Ctx, w.Storage, &types.ServerLedRegistrationRequest{}, w.Opts()...)
+				if terr != nil {
+					r.HarnessErr("create token: %v", terr)
+				}
+				sp.Nonce, _ = base58.FastBase58Decoding(strings.TrimPrefix(tok, nodeenrollment.ServerLedActivationTokenPrefix))
+				tokenReq = true
+				r.Count("cfg.request_presents_live_token", 1)
+			}
 			if tp.Draw(8) == 0 {
 				fieldsOK = false
 				switch tp.Draw(4) {
@@ -260,6 +273,9 @@ func propC03(r *kernel.Run) {
 		onEdge := now.Equal(lo) || now.Equal(hi)
 		expectAccept := corrupt == "none" && fieldsOK && inside
 		target := tp.Draw(2)
+		if tokenReq {
+			target = 1 // a token is presented to FetchNodeCredentials (AuthorizeNode is the operator's call for node-led requests)
+		}
 		before := len(w.St.Calls)
 		var err error
 		var resp *types.FetchNodeCredentialsResponse
